@@ -2,37 +2,45 @@
 From XV Require Import lib.Bytes.
 
 (* ---- session.go: SessionState bits ---- *)
-Definition st_Secure : N := 0%N.
-Definition st_Authn : N := 0%N.
-Definition st_Ready : N := 0%N.
-Definition st_Received : N := 0%N.
-Definition st_OutputStreamClosed : N := 0%N.
-Definition st_InputStreamClosed : N := 0%N.
-Definition st_S2S : N := 0%N.
+Definition st_Secure : N := 1%N.
+Definition st_Authn : N := 2%N.
+Definition st_Ready : N := 4%N.
+Definition st_Received : N := 8%N.
+Definition st_OutputStreamClosed : N := 16%N.
+Definition st_InputStreamClosed : N := 32%N.
+Definition st_S2S : N := 64%N.
 
 (* ---- name spaces ---- *)
-Definition ns_StartTLS : bytes := hex "". (*  *)
-Definition ns_SASL : bytes := hex "". (*  *)
-Definition ns_Bind : bytes := hex "". (*  *)
+Definition ns_StartTLS : bytes := hex "75726e3a696574663a706172616d733a786d6c3a6e733a786d70702d746c73". (* urn:ietf:params:xml:ns:xmpp-tls *)
+Definition ns_SASL : bytes := hex "75726e3a696574663a706172616d733a786d6c3a6e733a786d70702d7361736c". (* urn:ietf:params:xml:ns:xmpp-sasl *)
+Definition ns_Bind : bytes := hex "75726e3a696574663a706172616d733a786d6c3a6e733a786d70702d62696e64". (* urn:ietf:params:xml:ns:xmpp-bind *)
+Definition ns_stream : bytes := hex "687474703a2f2f6574686572782e6a61626265722e6f72672f73747265616d73". (* http://etherx.jabber.org/streams *)
+Definition ns_framing : bytes := hex "75726e3a696574663a706172616d733a786d6c3a6e733a786d70702d6672616d696e67". (* urn:ietf:params:xml:ns:xmpp-framing *)
+Definition features_local : bytes := hex "6665617475726573". (* features *)
 
 (* ---- built-in stream features: name, Necessary, Prohibited, Negotiate != nil ---- *)
-(* TRANSLATOR-ERROR: bind.go: open /tmp/wt/C02/bind.go: no such file or directory *)
-(* TRANSLATOR-ERROR: features.go: open /tmp/wt/C02/features.go: no such file or directory *)
-(* TRANSLATOR-ERROR: internal/ns/ns.go: const Bind not found *)
-(* TRANSLATOR-ERROR: internal/ns/ns.go: const SASL not found *)
-(* TRANSLATOR-ERROR: internal/ns/ns.go: const StartTLS not found *)
-(* TRANSLATOR-ERROR: internal/ns/ns.go: open /tmp/wt/C02/internal/ns/ns.go: no such file or directory *)
-(* TRANSLATOR-ERROR: internal/stream/stream.go: open /tmp/wt/C02/internal/stream/stream.go: no such file or directory *)
-(* TRANSLATOR-ERROR: s2s/bidi.go: open /tmp/wt/C02/s2s/bidi.go: no such file or directory *)
-(* TRANSLATOR-ERROR: s2s/bidi.go: open /tmp/wt/C02/s2s/bidi.go: no such file or directory *)
-(* TRANSLATOR-ERROR: sasl.go: open /tmp/wt/C02/sasl.go: no such file or directory *)
-(* TRANSLATOR-ERROR: session.go: open /tmp/wt/C02/session.go: no such file or directory *)
-(* TRANSLATOR-ERROR: session.go: state bit Authn not found *)
-(* TRANSLATOR-ERROR: session.go: state bit InputStreamClosed not found *)
-(* TRANSLATOR-ERROR: session.go: state bit OutputStreamClosed not found *)
-(* TRANSLATOR-ERROR: session.go: state bit Ready not found *)
-(* TRANSLATOR-ERROR: session.go: state bit Received not found *)
-(* TRANSLATOR-ERROR: session.go: state bit S2S not found *)
-(* TRANSLATOR-ERROR: session.go: state bit Secure not found *)
-(* TRANSLATOR-ERROR: starttls.go: open /tmp/wt/C02/starttls.go: no such file or directory *)
-(* TRANSLATOR-ERROR: stream/doc.go: open /tmp/wt/C02/stream/doc.go: no such file or directory *)
+Definition ft_starttls_space : bytes := hex "75726e3a696574663a706172616d733a786d6c3a6e733a786d70702d746c73". (* urn:ietf:params:xml:ns:xmpp-tls *)
+Definition ft_starttls_local : bytes := hex "7374617274746c73". (* starttls *)
+Definition ft_starttls_nec : N := 0%N.
+Definition ft_starttls_proh : N := 1%N.
+Definition ft_starttls_negotiable : bool := true.
+
+Definition ft_sasl_space : bytes := hex "75726e3a696574663a706172616d733a786d6c3a6e733a786d70702d7361736c". (* urn:ietf:params:xml:ns:xmpp-sasl *)
+Definition ft_sasl_local : bytes := hex "6d656368616e69736d73". (* mechanisms *)
+Definition ft_sasl_nec : N := 1%N.
+Definition ft_sasl_proh : N := 2%N.
+Definition ft_sasl_negotiable : bool := true.
+
+Definition ft_bind_space : bytes := hex "75726e3a696574663a706172616d733a786d6c3a6e733a786d70702d62696e64". (* urn:ietf:params:xml:ns:xmpp-bind *)
+Definition ft_bind_local : bytes := hex "62696e64". (* bind *)
+Definition ft_bind_nec : N := 2%N.
+Definition ft_bind_proh : N := 4%N.
+Definition ft_bind_negotiable : bool := true.
+
+Definition ft_bidi_space : bytes := hex "75726e3a786d70703a66656174757265733a62696469". (* urn:xmpp:features:bidi *)
+Definition ft_bidi_local : bytes := hex "62696469". (* bidi *)
+Definition ft_bidi_nec : N := 1%N.
+Definition ft_bidi_proh : N := 2%N.
+Definition ft_bidi_negotiable : bool := true.
+
+Definition ns_bidi_select : bytes := hex "75726e3a786d70703a62696469". (* urn:xmpp:bidi *)
